@@ -12,23 +12,23 @@ PROPS = ("C01", "C07", "C08", "C10", "C11", "C19", "C20")
 
 # property -> (driver modes with (scenarios, events) per tier, MC focus runs per tier)
 PLAN = {
-    "C07": dict(modes={"quick": [("match", 12, 40)], "thorough": [("match", 120, 60)]},
-                mc={"quick": [("match", 4, {})], "thorough": [("match", 6, {})]}),
-    "C08": dict(modes={"quick": [("dispatch", 16, 40), ("net", 4, 40)], "thorough": [("dispatch", 200, 60), ("net", 48, 60)]},
-                mc={"quick": [("dispatch", 3, {})], "thorough": [("dispatch", 4, {}), ("dispatch", 3, {"Passive": "TRUE"})]}),
-    "C10": dict(modes={"quick": [("tokens", 16, 40), ("dispatch", 6, 40), ("net", 4, 40)],
+    "C07": dict(modes={"quick": [("match", 48, 40)], "thorough": [("match", 120, 60)]},
+                mc={"quick": [("match", 6, {})], "thorough": [("match", 8, {})]}),
+    "C08": dict(modes={"quick": [("dispatch", 64, 40), ("net", 8, 40)], "thorough": [("dispatch", 200, 60), ("net", 48, 60)]},
+                mc={"quick": [("dispatch", 4, {})], "thorough": [("dispatch", 5, {}), ("dispatch", 4, {"Passive": "TRUE"})]}),
+    "C10": dict(modes={"quick": [("tokens", 48, 40), ("dispatch", 16, 40), ("net", 8, 40)],
                        "thorough": [("tokens", 200, 60), ("dispatch", 60, 60), ("net", 48, 60)]},
-                mc={"quick": [("tokens", 3, {})], "thorough": [("tokens", 4, {})]}),
-    "C11": dict(modes={"quick": [("peers", 16, 50), ("net", 4, 40)], "thorough": [("peers", 200, 80), ("net", 48, 60)]},
-                mc={"quick": [("peers", 3, {})], "thorough": [("peers", 4, {})]}),
-    "C19": dict(modes={"quick": [("block", 16, 40)], "thorough": [("block", 200, 60)]},
-                mc={"quick": [("block", 3, {}), ("block", 3, {"Passive": "TRUE"})],
-                    "thorough": [("block", 4, {}), ("block", 4, {"Passive": "TRUE"})]}),
-    "C20": dict(modes={"quick": [("budget", 16, 40)], "thorough": [("budget", 200, 60)]},
+                mc={"quick": [("tokens", 4, {})], "thorough": [("tokens", 5, {})]}),
+    "C11": dict(modes={"quick": [("peers", 48, 50), ("net", 8, 40)], "thorough": [("peers", 200, 80), ("net", 48, 60)]},
+                mc={"quick": [("peers", 4, {})], "thorough": [("peers", 5, {})]}),
+    "C19": dict(modes={"quick": [("block", 48, 40)], "thorough": [("block", 200, 60)]},
+                mc={"quick": [("block", 4, {}), ("block", 4, {"Passive": "TRUE"})],
+                    "thorough": [("block", 5, {}), ("block", 5, {"Passive": "TRUE"})]}),
+    "C20": dict(modes={"quick": [("budget", 32, 40)], "thorough": [("budget", 200, 60)]},
                 mc={"quick": [("budget", 4, {"Burst": "1"}), ("budget", 4, {"Burst": "0"})],
                     "thorough": [("budget", 5, {"Burst": "2"}), ("budget", 5, {"Burst": "1"}), ("budget", 5, {"Burst": "0"})]}),
-    "C01": dict(modes={"quick": [("hostile", 12, 400)], "thorough": [("hostile", 120, 2000)]},
-                mc={"quick": [("dispatch", 3, {})], "thorough": [("dispatch", 4, {})]}),
+    "C01": dict(modes={"quick": [("hostile", 48, 500)], "thorough": [("hostile", 120, 2000)]},
+                mc={"quick": [("dispatch", 4, {})], "thorough": [("dispatch", 5, {})]}),
 }
 
 
@@ -77,7 +77,7 @@ def run(prop, tier, seed, replay=None):
         jobs = [(meta["mode"], meta["seed"], meta["scenario"] + 1, meta["events"], meta["scenario"])]
     else:
         for mode, n, events in PLAN[prop]["modes"][tier]:
-            split = 4 if tier == "quick" else 16
+            split = 8 if tier == "quick" else 16
             for i in range(split):
                 jobs.append((mode, seed * 1000 + i, max(1, n // split), events, None))
 
